@@ -246,8 +246,14 @@ def opSubseq (j : Json) : Except String Json := do
   let k := getOptNat j "k"
   let out := kbestRun starts r (getNatD j "overlap" 0) (getOptNat j "minlength") (getOptNat j "maxlength") k
     (2 * c + 2) (kbestInit matching r (getNatD j "overlap" 0)) 0
+  -- `best_matches(max_rangefactor)`: the square of the factor as a fraction [num, den]
+  let ranged : List (Nat × Nat) := match getNatArr j "rangeFactorSq" with
+    | .ok a => kbestRunStop (rangeStop (a.getD 0 1) (a.getD 1 1)) starts r (getNatD j "overlap" 0) (getOptNat j "minlength")
+        (getOptNat j "maxlength") k (2 * c + 2) (kbestInit matching r (getNatD j "overlap" 0)) 0 []
+    | .error _ => []
   return Json.mkObj [("matching", Json.arr (matching.map costJ).toArray),
-    ("starts", Json.arr (starts.map fun (x : Nat) => Json.num (x : Nat)).toArray), ("yielded", cellsJ out)]
+    ("starts", Json.arr (starts.map fun (x : Nat) => Json.num (x : Nat)).toArray), ("yielded", cellsJ out),
+    ("ranged", cellsJ ranged)]
 
 /-- op "knn": the bounded k-NN scan of SubsequenceSearch on explicit (distance, lower bound) pairs, and a
 sequence of queries on one object -/
